@@ -174,3 +174,82 @@ func rotate(l []string, k int) []string {
 	k = k % len(l)
 	return append(append([]string{}, l[k:]...), l[:k]...)
 }
+
+// C03: payload shapes at the edges: empty payload, payload of total size 0 (symlinks, directories, empty
+// files only), a file larger than the compressors' blocks under every compression setting, trees
+func genC03Shapes(w *caseWriter, st *pkgStats) int {
+	n := 0
+	emit := func(tag string, c nfpm.Config) {
+		n++
+		runPkgCase(w, fmt.Sprintf("h-%s-%d", tag, n), pkgDesc{YAML: marshalConfig(&c), Formats: rotate(allFormats, n)}, st, nil)
+	}
+	c := baseConfig("empty")
+	emit("empty", c)
+	c = baseConfig("zero")
+	c.Contents = files.Contents{
+		{Source: "/usr/bin/x", Destination: "/usr/bin/link", Type: files.TypeSymlink},
+		{Destination: "/var/lib/zero", Type: files.TypeDir},
+		{Source: "src/f2", Destination: "/usr/share/zero/empty-file"},
+	}
+	emit("zero-bytes", c)
+	c = baseConfig("onlylinks")
+	c.Contents = files.Contents{{Source: "/usr/bin/x", Destination: "/usr/bin/link", Type: files.TypeSymlink}}
+	emit("only-symlink", c)
+	for _, dc := range []string{"", "gzip", "xz", "zstd", "none"} {
+		for _, rc := range []string{"", "gzip:9", "xz", "lzma", "zstd"} {
+			if (dc == "") != (rc == "") && dc != "none" {
+				continue
+			}
+			c = baseConfig("big")
+			c.Deb.Compression, c.RPM.Compression = dc, rc
+			c.Contents = files.Contents{
+				{Source: "src/big.bin", Destination: "/opt/big/big.bin"},
+				{Source: "src/big2.bin", Destination: "/opt/big/big2.bin"},
+				{Source: "src/d", Destination: "/opt/big/tree", Type: files.TypeTree},
+				{Destination: "/opt/big/dir-with-mtime", Type: files.TypeDir, FileInfo: &files.ContentFileInfo{MTime: time.Unix(1400000000, 0).UTC()}},
+			}
+			emit("big-"+dc+"-"+rc, c)
+		}
+	}
+	return n
+}
+
+// C04: names at the edges: first components that start with a dot next to their undotted siblings, names
+// that sort before ".PKGINFO", scripts and other control members whose size is a multiple of 512
+func genC04Shapes(w *caseWriter, st *pkgStats) int {
+	n := 0
+	emit := func(tag string, c nfpm.Config, extra []extraFile) {
+		n++
+		runPkgCase(w, fmt.Sprintf("h-%s-%d", tag, n), pkgDesc{YAML: marshalConfig(&c), Files: extra, Formats: rotate(allFormats, n)}, st, nil)
+	}
+	c := baseConfig("dots")
+	c.Contents = files.Contents{
+		{Source: "src/f1", Destination: "/.app/x"}, {Source: "src/f1", Destination: "/app/y"},
+		{Source: "src/f1", Destination: "/..app/z"}, {Source: "src/f1", Destination: "/a/.b/c"}, {Source: "src/f1", Destination: "/a/b/c"},
+		{Destination: "/./.hidden/", Type: files.TypeDir}, {Destination: "/hidden", Type: files.TypeDir},
+	}
+	emit("dot-components", c, nil)
+	c = baseConfig("early")
+	c.Contents = files.Contents{
+		{Source: "src/f1", Destination: "/.BUILDINFO"}, {Source: "src/f1", Destination: "/+extras/f"},
+		{Source: "src/f1", Destination: "/.AppDir/x"}, {Source: "src/f1", Destination: "/!bang"}, {Source: "src/f1", Destination: "/-dash/f"},
+		{Source: "src/f1", Destination: "/a"}, {Destination: "/b/", Type: files.TypeDir}, {Source: "src/f1", Destination: "/0/1/2/3/4/5/6/7/8/9/deep"},
+	}
+	emit("names-sorting-before-pkginfo", c, nil)
+	for _, size := range []int{512, 1024, 4096, 511, 513} {
+		c = baseConfig("blocks")
+		c.Contents = files.Contents{{Source: "src/f1", Destination: "/usr/bin/f1"}}
+		body := make([]byte, size)
+		for i := range body {
+			body[i] = "#!/bin/sh\n"[i%10]
+		}
+		var extra []extraFile
+		for _, s := range append(append([]slotSetter{}, slotSetters["common"]...), slotSetters["apk"]...) {
+			p := "scripts/" + s.name
+			extra = append(extra, extraFile{Path: p, Hex: hex.EncodeToString(body), Mode: 0o755, MTime: 1650000000})
+			s.set(&c, p)
+		}
+		emit(fmt.Sprintf("script-size-%d", size), c, extra)
+	}
+	return n
+}
